@@ -127,6 +127,18 @@ def w_vstars(arg):
         fields = [dict(zip(vs.vecpos[a], vs.vecvec[a])) for a in range(vs.Nvstars)]
         gram = np.array([[sum(fa[k] @ fb[k] for k in fa if k in fb) for fb in fields] for fa in fields]) if fields else np.zeros((0, 0))
         acc.check(np.allclose(gram, np.eye(vs.Nvstars), atol=1e-10), 'vector-stars-orthonormal', tag, sig=(tag, 'gram'))
+        # the result is a function of the star set alone: other queries on the same crystal object in between (site vector bases,
+        # as an Interstitial calculator built on the same crystal makes them) leave a regenerated set identical
+        try:
+            fvb = [c.FullVectorBasis(chem) for _ in range(2)]
+            vs2 = stars.VectorStarSet(ss)
+            acc.check(vs2.Nvstars == vs.Nvstars and all(a == b for a, b in zip(vs2.vecpos, vs.vecpos)) and
+                      all(np.array_equal(x, y) for a, b in zip(vs2.vecvec, vs.vecvec) for x, y in zip(a, b)),
+                      'vector-stars-independent-of-earlier-queries-on-the-crystal', tag, sig=(tag, 'hist'))
+            acc.check(all(np.array_equal(x, y) for x, y in zip(fvb[0][0], fvb[1][0])) and all(np.array_equal(x, y) for x, y in zip(fvb[0][1], fvb[1][1])),
+                      'site-vector-basis-repeatable', tag, sig=(tag, 'fvbrep'))
+        except Exception as ex:
+            acc.check(False, 'vector-stars-independent-of-earlier-queries-on-the-crystal', '%s: %s' % (type(ex).__name__, str(ex)[:200]), sig=(tag, 'hist'))
         expect = 0
         for st in ss.stars:
             s0 = ss.states[st[0]]
